@@ -165,8 +165,23 @@ def run_history(case, two_d_monitors=False):
     # in 2-D histories for C02 the supplied states have VD = 0 (a non-zero VD there is C13's business)
     vd_nonzero = two_d_monitors or wa
     pva0 = random_pva(rng, t0, vd=vd_nonzero, two_d=two_d_monitors)
+    from pyins import strapdown as strapdown
     repeats = bool(case.get('repeats'))
     inc = random_increments(rng, n_inc, t0, big_vertical=two_d_monitors, repeats=repeats)
+    vertical = bool(case.get('vertical'))
+    if vertical:
+        # a vehicle standing on its tail (pitch exactly +-90, the Euler-angle singularity as a SUSTAINED attitude): stationary, with the
+        # Earth-rate-consistent readings of that attitude, so that every computed row stays at the singularity
+        from pyins import sim
+        sg = float(rng.choice([-1.0, 1.0]))
+        pva0 = random_pva(rng, t0, vd=True)
+        pva0[['VN', 'VE', 'VD']] = 0.0
+        pva0['pitch'] = 90.0 * sg
+        tt_ = t0 + np.arange(n_inc + 1) * 0.01
+        _, imu_ = sim.generate_imu(tt_, np.tile(pva0[['lat', 'lon', 'alt']].values.astype(float), (n_inc + 1, 1)),
+                                   np.tile(pva0[['roll', 'pitch', 'heading']].values.astype(float), (n_inc + 1, 1)), np.zeros((n_inc + 1, 3)))
+        inc = strapdown.compute_increments_from_imu(imu_, 'rate')
+        bump('histories_at_gimbal_lock')
     rep_rows = np.nonzero(inc['dt'].values == 0.0)[0] if repeats else np.array([], int)
     if rng.random() < 0.25:
         # "any increments table": columns in another order and an extra column (selection must be by label)
@@ -313,6 +328,17 @@ def run_history(case, two_d_monitors=False):
                     if not vd_nonzero:
                         newp['VD'] = 0.0
                     newp.name = t_now
+                if vertical:
+                    # at pitch +-90 only roll -+ heading is defined: relabel the SAME physical attitude with another heading
+                    cur = I.get_pva()
+                    newp = cur.copy()
+                    dh = float(rng.uniform(-170, 170))
+                    sgp = 1.0 if cur['pitch'] > 0 else -1.0
+                    newp['heading'] = (cur['heading'] + dh + 180.0) % 360.0 - 180.0
+                    newp['roll'] = (cur['roll'] + sgp * dh + 180.0) % 360.0 - 180.0
+                    newp['pitch'] = 90.0 * sgp
+                    newp.name = t_now
+                    bump('set_pva_at_gimbal_lock')
                 ops.append(('set_pva',))
                 newp_copy = newp.copy()
                 before_rows = I.trajectory.iloc[:-1].copy()
